@@ -183,11 +183,20 @@ func runShardBin(bin, dir string, spec propSpec, prop string, seed uint64, from,
 	args := []string{"-engine", spec.engine, "-prop", prop, "-seed", fmt.Sprint(seed), "-from", fmt.Sprint(from), "-to", fmt.Sprint(to), "-tier", tier,
 		"-sites", filepath.Join(dir, "sites.json"), "-budget", budget.String(), "-o", out}
 	args = append(args, extra...)
-	cmd := exec.Command(bin, args...)
+	// watchdog: a worker stops generating runs when its budget is used up, so one that is
+	// still alive long after that is stuck inside a call (native-speed engines have no step
+	// budget). It is killed and the check ends with exit 2 - infrastructure, never a verdict.
+	limit := 3*budget + 5*time.Minute
+	ctx, cancel := context.WithTimeout(context.Background(), limit)
+	defer cancel()
+	cmd := exec.CommandContext(ctx, bin, args...)
 	cmd.Env = workerEnv(dir, spec.race, false)
 	var stderr strings.Builder
 	cmd.Stderr = &stderr
 	if err := cmd.Run(); err != nil {
+		if ctx.Err() != nil {
+			return shardResult{err: fmt.Errorf("worker shard %d: WATCHDOG: still running %v after start (budget %v); killed", k, limit, budget)}
+		}
 		return shardResult{err: fmt.Errorf("worker shard %d: %v\n%s", k, err, tail(stderr.String(), 2000))}
 	}
 	return readShard(out)
@@ -254,6 +263,7 @@ func matchKnown(known []knownFinding, prop string, f *failure) *knownFinding {
 		Races      []struct{ A, B string } `json:"races"`
 		HistFuncs  []string                `json:"history_funcs"`
 		PfMisses   bool                    `json:"prefilter_misses_match"`
+		AccelDead  bool                    `json:"accel_over_dead"`
 		Funcs      []string                `json:"rare_funcs"`
 		Violations []struct {
 			Kind string `json:"kind"`
@@ -299,6 +309,9 @@ func matchKnown(known []knownFinding, prop string, f *failure) *knownFinding {
 			if _, has := k.Key["prefilter_misses_match"]; has && !out.PfMisses {
 				ok = false
 			}
+			if _, has := k.Key["accel_over_dead"]; has && !out.AccelDead {
+				ok = false
+			}
 			if v, has := k.Key["strategy_in"]; has {
 				found := false
 				if l, isList := v.([]any); isList {
@@ -334,7 +347,7 @@ func matchKnown(known []knownFinding, prop string, f *failure) *knownFinding {
 			}
 			for name := range k.Key {
 				switch name {
-				case "knob_nondefault", "history_func", "strategy_in", "history_func_any", "prefilter_misses_match":
+				case "knob_nondefault", "history_func", "strategy_in", "history_func_any", "prefilter_misses_match", "accel_over_dead":
 				default:
 					ok = false
 				}
